@@ -42,6 +42,7 @@ def run(ctx: Ctx) -> None:
     tableau.rule_phase_combine(ctx)
     tableau.rule_measure_rowset(ctx)
     tableau.rule_measure_indices(ctx)
+    tableau.rule_insert_layout(ctx)
     from .c01 import rule_determinism_map
     rule_determinism_map(ctx)
     tableau.rule_outcome_used(ctx)
@@ -79,6 +80,9 @@ def rule_wrappers(ctx: Ctx) -> None:
 
 
 KNOCKOUTS = [
+    Knockout("insert-qubit-stabilizer-x-instead-of-z", CLIFF, sub_once("    tableau.stabilizer_z[new_position, new_position] = 1\n", "    tableau.stabilizer_x[new_position, new_position] = 1\n"), "insert.layout", "destabilizer X"),
+    Knockout("insert-qubit-row-length", CLIFF, sub_once("    new_row = np.zeros(n_qubits + 1)\n", "    new_row = np.zeros(n_qubits)\n"), "insert.layout", "zero entries"),
+    Knockout("insert-qubit-blocks-transposed", CLIFF, sub_once("    new_table = np.block([[tmp_dex, tmp_dez], [tmp_sx, tmp_sz]])", "    new_table = np.block([[tmp_dex, tmp_sx], [tmp_dez, tmp_sz]])"), "insert.layout", "assembled"),
     Knockout("measurement-z-column-off-by-n", CLIFF, sub_once("        table[x_p, qubit_position + n_qubits] = 1\n", "        table[x_p, qubit_position] = 1\n"), "measure.indices", "column of the single 1"),
     Knockout("measurement-destabilizer-row", CLIFF, sub_once("        table[x_p - n_qubits] = table[x_p]\n", "        table[x_p - n_qubits + 1] = table[x_p]\n"), "measure.indices", "destabilizer row"),
     Knockout("measurement-stabilizer-search-strict", CLIFF, sub_once("        if non_zero_x[i] >= n_qubits:", "        if non_zero_x[i] > n_qubits:"), "measure.indices", "stabilizer row is searched"),
